@@ -1,52 +1,9 @@
 From Coq Require Import ZArith List Lia Bool.
-Require Import MixDP TabEq.
+Require Import Actions Mixed MixDP TabEq.
 Import ListNotations.
 Open Scope Z_scope.
 
-(* ---- cache_step (mixed.py:212-223) around mixed_step_memoization, with the dictionary explicit ---- *)
-Definition cache := list ((Z * Z) * plan_t).
-Fixpoint find (n s : Z) (c : cache) : option plan_t :=
-  match c with [] => None | ((n', s'), v) :: r => if (n =? n') && (s =? s') then Some v else find n s r end.
-Definition add (n s : Z) (v : plan_t) (c : cache) : cache := ((n, s), v) :: c.
-
-(* the for loop of the body, threading the cache; stops at the first exception *)
-Fixpoint loopM (call : cache -> Z -> Z -> cache * res plan_t) (cnt : nat) (i n s : Z) (c : cache) (m : option plan_t)
-  : cache * res (option plan_t) :=
-  match cnt with O => (c, Ok m) | S k =>
-    let '(c1, ra) := call c i s in
-    match ra with Err e => (c1, Err e) | Ok a =>
-    let '(c2, rb) := call c1 (n - i) (s - 1) in
-    match rb with Err e => (c2, Err e) | Ok b =>
-    let m1 := i + cost a + cost b in
-    let m' := match m with None => Some (KIcs, i, m1) | Some (_, _, c0) => if m1 <=? c0 then Some (KIcs, i, m1) else m end in
-    loopM call k (i + 1) n s c2 m' end end end.
-
-Fixpoint memoS (fuel : nat) (c : cache) (n s : Z) : cache * res plan_t :=
-  match fuel with O => (c, Err OutOfFuel) | S f =>
-  let s := Z.min s (n - 1) in                       (* wrapped_fn: "avoid some cache misses" *)
-  match find n s c with
-  | Some v => (c, Ok v)
-  | None =>
-    (* fn(n, s) *)
-    let '(c', r) :=
-      if n <=? 0 then (c, Err ValueError) else
-      if (s <? Z.min 1 (n-1)) || (s >? n - 1) then (c, Err ValueError) else
-      if n =? 1 then (c, Ok (KFR, 1, 1)) else
-      if n <=? s + 1 then (c, Ok (KAdj, 1, n)) else
-      if s =? 1 then (c, Ok (KIcs, n - 1, n*(n+1)/2 - 1)) else
-      let '(c1, rm) := loopM (memoS f) (Z.to_nat (n - 2)) 2 n s c None in
-      match rm with
-      | Err e => (c1, Err e)
-      | Ok None => (c1, Err RuntimeError)
-      | Ok (Some (k, i, c0)) =>
-        let '(c2, ra) := memoS f c1 (n - 1) (s - 1) in
-        match ra with Err e => (c2, Err e) | Ok a =>
-          let m1 := 1 + cost a in
-          (c2, Ok (if m1 <? c0 then (KAdj, 1, m1) else (k, i, c0))) end
-      end in
-    match r with Ok v => (add n s v c', Ok v) | Err e => (c', Err e) end
-  end end.
-
+(* cache_step around mixed_step_memoization with the dictionary explicit: Model/Mixed.v (cache, find, add, loopM, memoS) *)
 (* ---- coherence ---- *)
 Definition validk (n s : Z) := 1 <= n /\ Z.min 1 (n - 1) <= s <= n - 1.
 Definition Coh (c : cache) := forall n s v, find n s c = Some v -> validk n s /\ v = planC n s.
@@ -136,6 +93,58 @@ Proof.
       * injection H as <- <-. split; [exact Hc1|]. split; [exact Hx1|discriminate].
       * injection H as <- <-. split; [exact Hc1|]. split; [exact Hx1|discriminate].
 Qed.
+
+(* ---- totality: with enough fuel a call with valid arguments succeeds, whatever (coherent) cache it starts from ---- *)
+Definition CallTot (bound : Z) (call : cache -> Z -> Z -> cache * res plan_t) :=
+  forall c n s c' r, Coh c -> call c n s = (c', r) -> 1 <= n <= bound -> Z.min 1 (n - 1) <= s -> exists v, r = Ok v.
+Lemma loopM_total call bound : CallOK call -> CallTot bound call -> forall cnt i n s c m c' r, Coh c -> 2 <= s -> s + 1 < n -> n - 1 <= bound ->
+  2 <= i -> i + Z.of_nat cnt <= n ->
+  loopM call cnt i n s c m = (c', r) -> exists m', r = Ok m'.
+Proof.
+  intros Hok Htot. induction cnt as [|cnt IH]; intros i n s c m c' r Hc Hs Hn Hb Hi Hbd H; cbn [loopM] in H.
+  - injection H as <- <-. eauto.
+  - destruct (call c i s) as [c1 ra] eqn:E1. destruct (Hok _ _ _ _ _ Hc E1) as (Hc1 & _ & _).
+    destruct (Htot _ _ _ _ _ Hc E1 ltac:(lia) ltac:(lia)) as (a & ->).
+    destruct (call c1 (n - i) (s - 1)) as [c2 rb] eqn:E2. destruct (Hok _ _ _ _ _ Hc1 E2) as (Hc2 & _ & _).
+    destruct (Htot _ _ _ _ _ Hc1 E2 ltac:(lia) ltac:(lia)) as (b & ->).
+    exact (IH (i + 1) n s c2 _ c' r Hc2 Hs Hn Hb ltac:(lia) ltac:(lia) H).
+Qed.
+Theorem memoS_total : forall fuel, CallTot (Z.of_nat fuel) (memoS fuel).
+Proof.
+  induction fuel as [|f IH]; intros c n s c' r Hc H Hn Hs; [lia|].
+  cbn [memoS] in H. cbn zeta in H. set (s' := Z.min s (n - 1)) in *.
+  destruct (find n s' c) as [v|] eqn:Ef; [injection H as <- <-; eauto|].
+  destruct (Z.leb_spec n 0); [lia|].
+  destruct ((s' <? Z.min 1 (n - 1)) || (s' >? n - 1)) eqn:Eg.
+  { exfalso. apply orb_true_iff in Eg. destruct Eg as [Eg|Eg]; [apply Z.ltb_lt in Eg|rewrite Z.gtb_ltb in Eg; apply Z.ltb_lt in Eg]; unfold s' in *; lia. }
+  destruct (Z.eqb_spec n 1); [injection H as <- <-; eauto|].
+  destruct (Z.leb_spec n (s' + 1)); [injection H as <- <-; eauto|].
+  destruct (Z.eqb_spec s' 1); [injection H as <- <-; eauto|].
+  assert (IH' : CallTot (Z.of_nat f) (memoS f)) by exact IH.
+  destruct (loopM (memoS f) (Z.to_nat (n - 2)) 2 n s' c None) as [c1 rm] eqn:El.
+  destruct (loopM_ok (memoS f) (memoS_ok f) (Z.to_nat (n - 2)) 2 n s' c None c1 rm Hc ltac:(unfold s' in *; lia) ltac:(lia) ltac:(lia) ltac:(lia) El) as (Hc1 & _ & Hv1).
+  destruct (loopM_total (memoS f) (Z.of_nat f) (memoS_ok f) IH' (Z.to_nat (n - 2)) 2 n s' c None c1 rm Hc ltac:(unfold s' in *; lia) ltac:(lia) ltac:(lia) ltac:(lia) ltac:(lia) El) as (m' & ->).
+  destruct m' as [[[k i] c0]|].
+  - destruct (memoS f c1 (n - 1) (s' - 1)) as [c2 ra] eqn:Ea.
+    destruct (IH' _ _ _ _ _ Hc1 Ea ltac:(lia) ltac:(unfold s' in *; lia)) as (a & ->).
+    injection H as <- <-. eauto.
+  - (* the loop ran at least once (n - 2 >= 1), so it cannot have returned None *)
+    exfalso. specialize (Hv1 None eq_refl).
+    assert (Hne : accF (fcand n s') (Z.to_nat (n - 2)) 2 None <> None) by (apply accF_some; left; lia).
+    congruence.
+Qed.
+(* the planner as the iterator sees it (Model/Mixed.v memo_warm): for every sub-problem it is the canonical plan *)
+Theorem memo_warm_planC n0 s0 m k : 1 <= m <= n0 -> Z.min 1 (m - 1) <= k -> memo_warm n0 s0 m k = Ok (planC m k).
+Proof.
+  intros Hm Hk. unfold memo_warm. set (fuel := Z.to_nat (2 * n0 + 4)).
+  destruct (memoS fuel [] n0 s0) as [warm r0] eqn:E0. cbn [fst].
+  assert (Hc0 : Coh []) by (intros n s v H; discriminate).
+  destruct (memoS_ok fuel [] n0 s0 warm r0 Hc0 E0) as (Hcw & _ & _).
+  destruct (memoS fuel warm m k) as [c' r] eqn:E. cbn [snd].
+  destruct (memoS_total fuel warm m k c' r Hcw E ltac:(unfold fuel; lia) Hk) as (v & ->).
+  destruct (memoS_ok fuel warm m k c' (Ok v) Hcw E) as (_ & _ & Hv). destruct (Hv v eq_refl) as (_ & _ & ->). reflexivity.
+Qed.
+Print Assumptions memo_warm_planC.
 
 (* ---- history independence: whatever was called before, a successful call returns the pure planner's value,
         and the cache it leaves is again coherent ---- *)
